@@ -185,6 +185,7 @@ def run_lemmas(ctx, lemmas, tag, nshards=None):
     groups = [g for g in groups if g]
     nhead = HEADER.count('\n')
     ok = [True] * len(lemmas)
+    retries = {}
     t0 = time.time()
     rnd = 0
     while groups:
@@ -208,6 +209,12 @@ def run_lemmas(ctx, lemmas, tag, nshards=None):
             if rc == 0:
                 continue
             m = re.search(r'line (\d+), characters', out)
+            if not m and retries.get(tuple(g), 0) < 2:
+                # coqc died without pointing at a sentence (killed, out of memory, timeout on an overloaded machine): that says
+                # nothing about any lemma -- run the same group again (twice at most) before blaming its first lemma
+                retries[tuple(g)] = retries.get(tuple(g), 0) + 1
+                nxt.append(g)
+                continue
             j = 0
             if m:
                 ln = int(m.group(1))
@@ -251,6 +258,43 @@ def translate(ctx):
         info['note'] = ('source shape not recognised for %s; the previous generated file is kept and the correspondence '
                         'run alone ties model to code' % info.get('kept'))
     return {'C18': info}
+
+
+# ----------------------------------------------------------------------------
+# running jobs; process-global state
+# ----------------------------------------------------------------------------
+
+def run_jobs(ctx, jobs, nb=None):
+    """jobs over nb implementation processes (fresh interpreters); every process ends with a `globals` job: the state recorded
+    before `import pydl`, after it, and after all calls of that process.  Returns the results in job order."""
+    nb = max(1, min(nb or C.NPROC, len(jobs)))
+    outs = C.run_impl_parallel('c18_impl.py', [jobs[k::nb] + [{'op': 'globals'}] for k in range(nb)])
+    results = [None] * len(jobs)
+    for k, o in enumerate(outs):
+        for j, r in enumerate(o['results'][:-1]):
+            results[k + j * nb] = r
+        check_globals(ctx, o['results'][-1], [j_['op'] for j_ in jobs[k::nb]])
+    ctx.coverage.setdefault('pydl_file', outs[0]['pydl_file'])
+    return results
+
+
+def check_globals(ctx, g, ops):
+    """importing pydl and calling the anchored functions must leave the process-global state alone (np.geterr, warnings.filters,
+    print options, decimal context, global random streams, os.environ): later NaN / warning behaviour of the caller depends on it"""
+    st = ctx.coverage.setdefault('global_state_checks', {'processes': 0, 'keys': sorted(g.get('before_import', {}))})
+    st['processes'] += 1
+    if 'err' in g:
+        ctx.violation('C18:globals:impl-error', 'global state snapshot failed: %s' % g, {'kind': 'broken-correspondence', 'item': 'globals op'}, False)
+        return
+    for phase, a, b in (('import', g['before_import'], g['after_import']), ('call', g['runner'], g['after_calls'])):
+        for k in a:
+            if a[k] != b[k]:
+                ctx.violation('C18:globals:%s:%s' % (phase, k),
+                              '%s changed by %s: %r -> %r' % (k, 'importing pydl (import pydl; from pydl.goddard.astro import gcirc; '
+                                                              'pydl.pydlutils.coord, .mangle)' if phase == 'import' else
+                                                              'calling %s' % sorted(set(ops)), a[k], b[k]),
+                              {'kind': 'side-effect', 'item': 'process-global state %s' % k, 'phase': phase, 'before': a[k], 'after': b[k],
+                               'ops': sorted(set(ops))}, False)
 
 
 # ----------------------------------------------------------------------------
@@ -303,6 +347,7 @@ QUAD_SEPS = [90.0 - 1e-9, 90.0 - 1e-5, 90.0, 90.0 + 1e-7, 90.0 + 1e-3]
 SMALL_SEP = 1e-6     # below this: no RA wrap by 360 deg, no point exactly at a pole (see ASSUMPTIONS)
 TOP = {0: math.pi, 1: 648000.0, 2: 648000.0}
 # volume scans in the implementation's process (harness/impl/c18_impl.py near_scan)
+CALL_MODES = ['scalar', 'npfloat64', '0d', '1elem', 'list', 'mixed']
 NEAR_KINDS = ['near-antipodal', 'near-coincident', 'near-quadrature', 'ra-multiples', 'near-pole', 'near-equator']
 
 
@@ -461,7 +506,9 @@ def gcirc_lemma(name, c, r, negate=False):
     return 'Lemma %s : %s.\nProof. %s Qed.' % (name, stmt, prf)
 
 
-def check_gcirc(ctx, have_spec):
+def check_gcirc(ctx, have_spec, esc=1):
+    """esc > 1: the translator found a code path of gcirc that the generated model does not describe (a branch on the argument
+    type, a delegation to a helper): the scalar calling conventions then get `esc` times the volume"""
     cases = gen_gcirc(ctx)
     # jobs: one per (units, mode) chunk; also the swapped pairs for symmetry
     jobs, where = [], []
@@ -469,8 +516,17 @@ def check_gcirc(ctx, have_spec):
     for i, c in enumerate(cases):
         by.setdefault(c['units'], []).append(i)
     for units, idxs in by.items():
-        half = len(idxs) // 2
-        for mode, part in (('array', idxs[:half]), ('scalar', idxs[half:])):
+        # the certified cases go through every calling convention that holds exactly the float64 numbers: one array call for a
+        # third of them, the others one call per pair as Python floats, np.float64 scalars, 0-d arrays, 1-element arrays,
+        # 1-element lists, mixed types (the assignment rotates with the seed)
+        third = len(idxs) // 3
+        parts = [('array', idxs[:third])]
+        rest = idxs[third:]
+        for m, mode in enumerate(CALL_MODES):
+            sub = rest[(m + ctx.seed) % len(CALL_MODES)::len(CALL_MODES)]
+            if sub:
+                parts.append((mode, sub))
+        for mode, part in parts:
             jobs.append({'op': 'gcirc', 'units': units, 'mode': mode, 'pts': [cases[i]['pts'] for i in part],
                          'default_units': False})
             where.append(('fwd', part))
@@ -478,6 +534,13 @@ def check_gcirc(ctx, have_spec):
                          'pts': [[cases[i]['pts'][2], cases[i]['pts'][3], cases[i]['pts'][0], cases[i]['pts'][1]] for i in part],
                          'default_units': units == 2})
             where.append(('swap', part))
+    # the same calls without the runner's np.errstate / warning filter (the process-global state as `import pydl` left it): the answers
+    # must not depend on it
+    for units, idxs in by.items():
+        sel = [i for i in idxs if cases[i]['cls'] in ('antipodal', 'coincident', 'antipode-mirror', 'polar', 'quadrature')][:60] + idxs[:20]
+        for mode in ('array', 'scalar'):
+            jobs.append({'op': 'gcirc', 'units': units, 'mode': mode, 'pts': [cases[i]['pts'] for i in sel], 'default_units': False, 'plain': True})
+            where.append(('plain', sel))
     for units in (3, 5, -1):
         jobs.append({'op': 'gcirc_bad_units', 'units': units})
         where.append(('bad', units))
@@ -494,16 +557,25 @@ def check_gcirc(ctx, have_spec):
             # several jobs per kind: the pieces run in different processes
             for _ in range(2 if kind == 'near-antipodal' else 1):
                 jobs.append({'op': 'gcirc_near_scan', 'units': units, 'kind': kind, 'n': nn // (2 if kind == 'near-antipodal' else 1),
-                             'seed': ctx.rng.getrandbits(32)})
+                             'seed': ctx.rng.getrandbits(32),
+                             # pairs per scalar calling convention: rounding-critical ones (largest / smallest haversine sum) + random
+                             'n_hard': ctx.n(450, 2000) * esc if kind in ('near-antipodal', 'ra-multiples', 'near-pole') else ctx.n(90, 600) * esc,
+                             'n_random': ctx.n(150, 1000) * esc})
                 where.append(('near', (units, kind)))
-    nb = min(C.NPROC, len(jobs))
-    outs = C.run_impl_parallel('c18_impl.py', [jobs[k::nb] for k in range(nb)])
-    results = [None] * len(jobs)
-    for k, o in enumerate(outs):
-        for j, r in enumerate(o['results']):
-            results[k + j * nb] = r
-    ctx.coverage['pydl_file'] = outs[0]['pydl_file']
+    # caller-side histories: arrays changed in place between calls, one array object for several arguments, result array written to
+    for units in (0, 1, 2):
+        pts = []
+        for _ in range(ctx.n(40, 400)):
+            ra, dec = C.dyadic(ctx.rng, 0, 359, 6), C.dyadic(ctx.rng, -80, 80, 6)
+            ra2, dec2 = destination(ra, dec, ctx.rng.uniform(0, 6.28), ctx.rng.choice([1e-6, 1e-2, 1.0, 90.0, 179.0]))
+            pts.append(to_units([ra, dec, ra2, dec2], units))
+        jobs.append({'op': 'gcirc_inplace', 'units': units, 'pts': pts, 'shift': [ctx.rng.choice([0.5, 1.0, -0.25]), ctx.rng.choice([0.5, -1.0, 0.75])]})
+        where.append(('inplace', units))
+    jobs.append({'op': 'gcirc_units_types', 'pts': [[1.25, -20.5, 2.5, 30.0], [0.5, 1.0, 3.5, -1.0], [3.0, 0.25, 3.0, 0.25]]})
+    where.append(('units-types', None))
+    results = run_jobs(ctx, jobs)
     fwd, swp = {}, {}
+    plain = []
     scanned = 0
     near_stats = {}
     near_seen = set()
@@ -515,12 +587,38 @@ def check_gcirc(ctx, have_spec):
         if kind in ('fwd', 'swap'):
             for i, v in zip(what, r['d']):
                 (fwd if kind == 'fwd' else swp)[i] = v
+        elif kind == 'plain':
+            plain.append((job, what, r['d']))
         elif kind == 'bad':
             if r['raised'] != 'ValueError':
                 ctx.violation('C18:gcirc:bad-units', 'gcirc(units=%s) did not raise ValueError (%s)' % (what, r['raised']),
                               {'kind': 'failing-input', 'job': job, 'impl_result': r}, True)
+        elif kind == 'inplace':
+            scanned += 5 * len(job['pts'])
+            probs = []
+            if r['second'] != r['second_fresh'] or r['third'] != r['second_fresh']:
+                probs.append('after the caller changed its arrays in place (ra1 += %r; dec2[:] *= %r) / wrote into the returned array, '
+                             'gcirc answers %r / %r; fresh copies of the same numbers give %r'
+                             % (job['shift'][0], job['shift'][1], r['second'][:2], r['third'][:2], r['second_fresh'][:2]))
+            if not r['first_result_unchanged']:
+                probs.append('the array returned by the first call changed when the arguments were changed in place')
+            if any(v != 0.0 for v in r['same_object']):
+                probs.append('gcirc(ra, dec, ra, dec) with the same array objects is not 0: %r' % r['same_object'][:3])
+            if r['ra_is_dec'] != r['ra_is_dec_fresh']:
+                probs.append('one array object for RA and Dec of a point: %r, copies give %r' % (r['ra_is_dec'][:2], r['ra_is_dec_fresh'][:2]))
+            if probs:
+                ctx.violation('C18:gcirc:caller-arrays:units=%d' % what, '; '.join(probs),
+                              {'kind': 'failing-input', 'units': what, 'input': {'pts': job['pts'][:3], 'shift': job['shift']},
+                               'impl_result': {k_: (v[:3] if isinstance(v, list) else v) for k_, v in r.items()}, 'job': job}, True)
+        elif kind == 'units-types':
+            for how, dd in r['differences'].items():
+                ctx.violation('C18:gcirc:units-argument-type', 'gcirc(..., units=%s) = %r, units as a Python int gives %r' % (how, dd['got'], dd['int_units']),
+                              {'kind': 'failing-input', 'input': {'pts': job['pts'], 'units': how}, 'got': dd['got'], 'expected': dd['int_units']}, True)
+                break
         elif kind == 'near':
             scanned += 2 * r['n'] + r['scalar_calls']
+            crit = ctx.coverage.setdefault('gcirc_rounding_critical_pairs', {})
+            crit['units=%d %s' % what] = crit.get('units=%d %s' % what, 0) + r.get('critical_above_one', 0)
             st = near_stats.setdefault('units=%d %s' % what, {'pairs': 0, 'failures': 0})
             st['pairs'] += r['n']
             st['failures'] += sum(r['counts'].values())
@@ -529,6 +627,27 @@ def check_gcirc(ctx, have_spec):
             if not r['input_unchanged']:
                 ctx.violation('C18:gcirc:input-modified', 'gcirc modified its arguments (scan %s, units=%d)' % (what[1], what[0]),
                               {'kind': 'failing-input', 'job': job}, True)
+            cst = ctx.coverage.setdefault('gcirc_scalar_conventions', {})
+            for cv, c in r.get('conventions', {}).items():
+                e = cst.setdefault(cv, {'calls': 0, 'failures': 0})
+                e['calls'] += c['calls']
+                e['failures'] += sum(c['counts'].values())
+                for fault, ex in c['examples'].items():
+                    ref = ex['reference_deg']
+                    regime = 'near-antipodal' if ref > 179.9 else 'near-coincident' if ref < 0.1 else 'general'
+                    sig = 'C18:gcirc:%s:%s:units=%d:call=%s' % (fault, regime, what[0], cv)
+                    if sig in near_seen:
+                        continue
+                    near_seen.add(sig)
+                    ctx.violation(sig, 'gcirc(%s, units=%d) called with %s arguments %s; the two points are %.15g deg apart (vector formula); '
+                                  '%d of %d such calls of the %s scan fail this way (the array call of the same pairs: %s)'
+                                  % (', '.join(repr(v) for v in ex['input']), what[0], cv,
+                                     ('raised %s(%r)' % (fault[7:], ex['gcirc'])) if fault.startswith('raises-') else 'returned %r' % (ex['gcirc'],),
+                                     ref, c['counts'][fault], c['calls'], what[1], r['counts']),
+                                  {'kind': 'failing-input', 'units': what[0], 'input': ex['input'], 'calling_convention': cv,
+                                   'argument_types': ex.get('argument_types'), 'gcirc': ex['gcirc'], 'reference_deg': ref, 'fault': fault,
+                                   'scan': what[1], 'counts': c['counts'], 'array_call': ex.get('array_call'),
+                                   'job': job}, True)
             for fault, ex in r['examples'].items():
                 # signature = what failed, in which regime of separation (not which scan produced it), which convention
                 ref = ex['reference_deg']
@@ -550,6 +669,14 @@ def check_gcirc(ctx, have_spec):
                               % (what[1], what[0], r['nonfinite'], r['out_of_range'], r['nonzero_coincident']),
                               {'kind': 'failing-input', 'job': job, 'impl_result': r,
                                'input': r.get('example')}, True)
+    for job, sel, vals in plain:
+        for i, v in zip(sel, vals):
+            if i in fwd and v != fwd[i] and not (isnum(v) and isnum(fwd[i]) and abs(v - fwd[i]) <= 1e-6 * abs(v)):
+                ctx.violation('C18:gcirc:depends-on-global-state:units=%d' % job['units'],
+                              'gcirc%r (units=%d, %s call) = %r under the process-global numpy/warnings state left by `import pydl`, %r inside '
+                              'np.errstate(all="ignore")' % (tuple(cases[i]['pts']), job['units'], job['mode'], v, fwd[i]),
+                              {'kind': 'failing-input', 'units': job['units'], 'input': cases[i]['pts'], 'gcirc': v, 'with_errstate_ignore': fwd[i]}, True)
+                break
     # ---- direct behavioural checks
     nviol = 0
     stats = {}
@@ -698,6 +825,95 @@ def munu_lemma(name, direction, stripe, lon, lat, lon1, lat1, tol='(1 / 10000000
     return 'Lemma %s : %s.\nProof. %s Qed.' % (name, stmt, prf)
 
 
+DERIVED_ROUTES = ['direct', 'replicate_without_data', 'replicate', 'realize_frame', 'skycoord-replicate',
+                  'skycoord-frame-replicate_without_data', 'skycoord-from-derived-frame', 'skycoord-by-name', 'copy', 'deepcopy', 'pickle',
+                  'pickle-direct', 'getitem', 'reshape', 'frame-copy', 'transform-result', 'transform-result-replicate',
+                  'replicate-twice', 'replicate-same-stripe', 'skycoord-pickle', 'skycoord-getitem']
+
+
+def spec_rotation(direction, stripe, lon, lat):
+    """float evaluation of the specification: unit vector (node frame) of the image of (lon, lat) under the rotation by -incl (r2m) /
+    +incl (m2r) about the node"""
+    i = math.radians(float(incl_doc(stripe)))
+    x, y, z = vec_deg(lon - NODE, lat)
+    sg = -1.0 if direction == 'r2m' else 1.0
+    return (x, y * math.cos(i) - sg * z * math.sin(i), sg * y * math.sin(i) + z * math.cos(i))
+
+
+def check_derived(job, r, viol, stats):
+    """the relations of the property on frames obtained from other frames (judged against the documented inclination of the
+    frame's OWN stripe, not against another frame object)"""
+    st, s0 = job['stripe'], job['base_stripe']
+    n = 0
+    for route, res in r['routes'].items():
+        e = stats.setdefault(route, {'frames': 0, 'failures': 0})
+        e['frames'] += 1
+        how = '%s (stripe %d from an object of stripe %d)' % (route, st, s0)
+        rep0 = {'kind': 'failing-input', 'input': {'stripe': st, 'base_stripe': s0, 'route': route}, 'route': route}
+        bad = []
+        if 'err' in res:
+            viol('C18:munu:derived-frame:impl-error:%s' % res['err'], 'frame obtained by %s: %s: %s' % (how, res['err'], res.get('msg')),
+                 dict(rep0, impl_result=res), True)
+            e['failures'] += 1
+            continue
+        if res['stripe_out'] != st or res.get('stripe_result', st) != st:
+            bad.append(('stripe', 'frame.stripe = %r, stripe of the transform result %r, expected %d' % (res['stripe_out'], res.get('stripe_result'), st)))
+        for key in ('incl', 'incl_without_data', 'incl_result'):
+            if key in res and (not isnum(res[key]) or F(res[key]) != incl_doc(st)):
+                bad.append(('incl', '%s = %r deg but stripe_to_incl(%d) = %s deg' % ({'incl': 'frame.incl', 'incl_without_data':
+                            'frame.replicate_without_data().incl', 'incl_result': 'incl of the transform result'}[key], res[key], st, incl_doc(st))))
+                break
+        if res.get('node') != NODE:
+            bad.append(('node', 'frame.node = %r, expected 95' % (res.get('node'),)))
+        for direction, lon, lat in (('r2m', job['lon'], job['lat']), ('m2r', job['mu'], job['nu'])):
+            d = res[direction]
+            for k in range(len(lon)):
+                n += 1
+                vals = (d['lon1'][k], d['lat1'][k], d['lon2'][k], d['lat2'][k])
+                io = {'stripe': st, 'base_stripe': s0, 'route': route, 'direction': direction, 'lon': lon[k], 'lat': lat[k]}
+                if not all(isnum(v) for v in vals):
+                    bad.append(('nan', '%s of (%r, %r) gives a non-finite coordinate %r' % (direction, lon[k], lat[k], vals), io, vals))
+                    break
+                rt = chord_sep(vec_deg(lon[k], lat[k]), vec_deg(vals[2], vals[3]))
+                if rt > 2e-7:
+                    bad.append(('roundtrip', '%s: (%r, %r) -> (%r, %r) -> (%r, %r), off by %.3g rad'
+                                % ('ICRS -> (mu,nu) -> ICRS' if direction == 'r2m' else '(mu,nu) -> ICRS -> (mu,nu)', lon[k], lat[k], *vals, rt), io, vals))
+                    break
+                want, got = spec_rotation(direction, st, lon[k], lat[k]), vec_deg(vals[0] - NODE, vals[1])
+                diff = max(abs(a - b) for a, b in zip(want, got))
+                if diff > (1e-8 if abs(vals[1]) < 89.9 else 1e-7):
+                    bad.append(('rotation', '%s(%r, %r) = (%r, %r) is not the rotation by %sstripe_to_incl(%d) = %s deg about the node '
+                                '(unit vectors differ by %.3g)' % ('radec_to_munu' if direction == 'r2m' else 'munu_to_radec', lon[k], lat[k],
+                                                                   vals[0], vals[1], '-' if direction == 'r2m' else '+', st, incl_doc(st), diff), io, vals))
+                    break
+                if direction == 'm2r' and lat[k] == 0.0:
+                    i = math.radians(float(incl_doc(st)))
+                    off = abs(-got[1] * math.sin(i) + got[2] * math.cos(i))
+                    if off > 1e-9:
+                        bad.append(('nu0-circle', 'nu = 0, mu = %r maps to (%r, %r), %.3g off the great circle of inclination %s deg'
+                                    % (lon[k], vals[0], vals[1], off, incl_doc(st)), io, vals))
+                        break
+        own = res.get('own')
+        if own:
+            for k in range(len(own['mu'])):
+                want, got = spec_rotation('m2r', st, own['mu'][k], own['nu'][k]), vec_deg(own['ra'][k] - NODE, own['dec'][k])
+                if not all(isnum(v) for v in (own['ra'][k], own['dec'][k])) or max(abs(a - b) for a, b in zip(want, got)) > 1e-8:
+                    bad.append(('rotation', 'the object\'s own coordinates (mu, nu) = (%r, %r) transform to (%r, %r): not the rotation by '
+                                '+stripe_to_incl(%d)' % (own['mu'][k], own['nu'][k], own['ra'][k], own['dec'][k], st),
+                                {'stripe': st, 'base_stripe': s0, 'route': route, 'direction': 'own', 'lon': own['mu'][k], 'lat': own['nu'][k]},
+                                (own['ra'][k], own['dec'][k])))
+                    break
+        if bad:
+            e['failures'] += 1
+        for b in bad:
+            rep = dict(rep0, impl_result={k_: res[k_] for k_ in res if k_ not in ('r2m', 'm2r')})
+            if len(b) > 2:
+                rep['input'] = b[2]
+                rep['output'] = b[3]
+            viol('C18:munu:derived-frame:%s' % b[0], 'frame obtained by %s: %s' % (how, b[1]), rep, True)
+    return n
+
+
 def check_munu(ctx, have_spec):
     rng = ctx.rng
     stripes = list(range(0, 91)) if not ctx.thorough else list(range(0, 100))
@@ -716,12 +932,22 @@ def check_munu(ctx, have_spec):
                      ('float', range(-5, 120)), ('float64', range(0, 120))):
         jobs.append({'op': 'stripe', 'stripes': list(rng_), 'type': ty, 'frame': True})
         meta.append(('stripe', None))
-    nb = min(C.NPROC, len(jobs))
-    outs = C.run_impl_parallel('c18_impl.py', [jobs[k::nb] for k in range(nb)])
-    results = [None] * len(jobs)
-    for k, o in enumerate(outs):
-        for j, r in enumerate(o['results']):
-            results[k + j * nb] = r
+    # ---- derived frames (class H): a frame obtained from another frame / coordinate / SkyCoord by replicate(stripe=...),
+    # replicate_without_data, realize_frame, copies, pickling, slicing, as the result of a transform ... must satisfy the same
+    # relations as SDSSMuNu(stripe=s).  Every stripe gets a rotating subset of the routes (all routes in the thorough tier); the
+    # base object has a stripe of a different inclination.
+    nroutes = len(DERIVED_ROUTES)
+    per = nroutes if ctx.thorough else 5
+    for st in stripes:
+        s0 = rng.choice([x for x in (10, 0, 25, 45, 47, 61, 82, 86, rng.randrange(0, 91)) if incl_doc(x) != incl_doc(st)])
+        routes = ['direct'] + [DERIVED_ROUTES[1 + (st * per + q + ctx.seed) % (nroutes - 1)] for q in range(per)]
+        g = [(95.0, 0.0), (0.0, 90.0), (5.0, 45.0), (275.0, -30.0)] + [(C.dyadic(rng, 0, 360, 6), C.dyadic(rng, -90, 90, 6)) for _ in range(4)]
+        mg = [(95.0, 0.0), (5.0, 0.0), (185.0, 0.0), (C.dyadic(rng, 0, 360, 6), 0.0), (C.dyadic(rng, 0, 360, 6), C.dyadic(rng, -90, 90, 6)),
+              (300.0, -1.25)]
+        jobs.append({'op': 'derived', 'base_stripe': s0, 'stripe': st, 'routes': sorted(set(routes), key=routes.index),
+                     'lon': [p[0] for p in g], 'lat': [p[1] for p in g], 'mu': [p[0] for p in mg], 'nu': [p[1] for p in mg]})
+        meta.append(('derived', st))
+    results = run_jobs(ctx, jobs)
     seen = set()
 
     def viol(sig, why, rep, found=True):
@@ -730,6 +956,7 @@ def check_munu(ctx, have_spec):
         seen.add(sig)
         ctx.violation(sig, why, rep, found)
     npoints = 0
+    derived_stats = {}
     worst_rt = 0.0
     worst_iso = 0.0
     encl = []      # (direction, stripe, lon, lat, lon1, lat1)
@@ -739,6 +966,9 @@ def check_munu(ctx, have_spec):
             viol('C18:munu:impl-error:%s:%s' % (kind, r['err']), '%s raised %s: %s' % (job['op'], r['err'], r.get('msg')),
                  {'kind': 'failing-input', 'job': {k: job[k] for k in job if k not in ('lon', 'lat')},
                   'input': {'stripe': st, 'lon': job.get('lon', [])[:3], 'lat': job.get('lat', [])[:3]}, 'impl_result': r}, True)
+            continue
+        if kind == 'derived':
+            npoints += check_derived(job, r, viol, derived_stats)
             continue
         if kind == 'stripe':
             ty = job.get('type', 'int')
@@ -848,6 +1078,7 @@ def check_munu(ctx, have_spec):
                  {'kind': 'failing-input' if real else 'broken-correspondence', 'item': 'enclosure vdist_le', 'direction': kind,
                   'input': {'stripe': st, 'lon': lon, 'lat': lat}, 'output': [lon1, lat1], 'expected_vector': want,
                   'observed_vector': got, 'coq_lemma': lemmas[k]}, real)
+    ctx.coverage['munu_derived_frames'] = derived_stats
     return {'points': npoints, 'n_lemmas': len(lemmas), 'enclosure_failures': nfail, 'coq_s': secs, 'stripes': len(stripes),
             'worst_roundtrip_rad': worst_rt, 'worst_isometry_rad': worst_iso, 'sample_lemma': lemmas[0] if lemmas else None,
             'sample': {'job': {'op': jobs[0]['op'], 'stripe': jobs[0]['stripe'], 'lon': jobs[0]['lon'][:4], 'lat': jobs[0]['lat'][:4]},
@@ -908,7 +1139,7 @@ def check_angles(ctx, have_spec):
             nrm = math.sqrt(sum(t * t for t in v))
             xs.append([t / nrm for t in v])
         jobs.append({'op': 'x2a', 'latitude': lat, 'flag': flag, 'x': xs})
-    out = C.run_impl('c18_impl.py', jobs)['results']
+    out = run_jobs(ctx, jobs, nb=2)
     seen = set()
 
     def viol(sig, why, rep, found=True):
@@ -988,7 +1219,8 @@ def check_angles(ctx, have_spec):
 # storage types, caller-owned arrays, multi-call histories
 # ----------------------------------------------------------------------------
 
-GC_STORAGES = ['f4', 'i8', 'i4', 'i2', 'u2', '>f8', '>f4', '>i4', 'noncontig', 'list', 'pyint', 'npint32', 'npuint16', 'npfloat32', 'quantity']
+GC_STORAGES = ['f4', 'i8', 'i4', 'i2', 'u2', '>f8', '>f4', '>i4', 'noncontig', 'reversed', '2d-column', '2d-fortran', '2d-transposed', 'readonly',
+               'list', 'pyint', 'npint32', 'npuint16', 'npfloat32', 'quantity']
 INT_STORAGES = ('i8', 'i4', 'i2', 'u2', '>i4', 'pyint', 'npint32', 'npuint16')
 UNSIGNED = ('u2', 'npuint16')
 
@@ -1028,7 +1260,7 @@ def check_storage_history(ctx, viol):
             jobs.append({'op': 'gcirc_storage', 'units': units, 'storage': st, 'pts': pts})
     # ---- angles <-> vectors
     for lat in (False, True):
-        for st in ('f4', '>f8', '>f4', 'i4', 'i8', 'noncontig', 'fortran'):
+        for st in ('f4', '>f8', '>f4', 'i4', 'i8', 'noncontig', 'fortran', 'transposed', 'reversed', 'reversed-columns', 'rows-strided', 'readonly'):
             pts = []
             for _ in range(ctx.n(8, 30)):
                 if st in ('i4', 'i8'):
@@ -1039,7 +1271,7 @@ def check_storage_history(ctx, viol):
                     pts.append([C.dyadic(rng, -360, 360, 6), 90.0 - th if lat else th])
             jobs.append({'op': 'angles_storage', 'latitude': lat, 'storage': st, 'pts': pts})
     # ---- frames
-    for st in ('f4', '>f8', 'i4', 'noncontig'):
+    for st in ('f4', '>f8', 'i4', 'noncontig', 'reversed', 'readonly'):
         for stripe in (rng.choice([0, 9, 25, 61]), rng.choice([45, 47, 82, 86])):
             n = ctx.n(8, 30)
             if st == 'i4':
@@ -1094,6 +1326,14 @@ def check_storage_history(ctx, viol):
                     break
         elif op == 'angles_storage':
             tol = 3e-5 if 'f4' in st else 1e-9
+            if not r.get('xs_unchanged', True):
+                viol('C18:angles:input-modified', 'x_to_angles modified its %s (N, 3) input' % st, rep0, True)
+            for p, bs, br in zip(job['pts'], r.get('back_stored', []), r['back_ref']):
+                # the (N, 3) vectors in this storage type / memory layout through x_to_angles: the float64 answer
+                if (not all(isnum(t) for t in bs) or abs((bs[0] - br[0] + 180.0) % 360.0 - 180.0) > tol * 60 or abs(bs[1] - br[1]) > tol * 60):
+                    viol('C18:angles:storage-type', 'x_to_angles of the unit vector of %r stored as %s (latitude=%s) = %r; as contiguous float64: %r'
+                         % (p, st, job['latitude'], bs, br), dict(rep0, point=p), True)
+                    break
             for p, x, xr, b, br in zip(job['pts'], r['x'], r['x_ref'], r['back'], r['back_ref']):
                 nvals += 1
                 bad = (not all(isnum(t) for t in x + b) or max(abs(s_ - t) for s_, t in zip(x, xr)) > tol or
@@ -1120,7 +1360,19 @@ def correspond(ctx, proof_ok=True):
     if not ok:
         ctx.violation('C18:spec-build', 'C18/SpecProofs.v does not build', {'kind': 'broken-proof', 'item': 'C18/SpecProofs.v',
                                                                            'log_tail': log[-2000:]}, False)
-    g = check_gcirc(ctx, have_spec)
+    # code paths of the anchored functions that the generated model does not describe (a branch on the argument type, a
+    # delegation to a helper ...): the theorems then speak about one of several paths only -- reported, and the calling-convention
+    # families get more volume
+    try:
+        paths = T.generate(C.REPO)[1].get('unmodelled_paths', [])
+    except Exception as e:  # noqa: BLE001
+        paths = ['translator failed: %s: %s' % (type(e).__name__, e)]
+    ctx.coverage['unmodelled_code_paths'] = paths
+    for pth in paths:
+        ctx.violation('C18:translate:unmodelled-code-path:%s' % pth.split(':')[0],
+                      'the generated model does not describe every code path a call can take: %s' % pth,
+                      {'kind': 'broken-correspondence', 'item': 'coq/Generated (translate/c18.py): %s' % pth}, False)
+    g = check_gcirc(ctx, have_spec, esc=4 if paths else 1)
     m = check_munu(ctx, have_spec)
     a = check_angles(ctx, have_spec)
     seen_sh = set()
@@ -1164,6 +1416,26 @@ def replay(ctx, rep):
         print('no concrete input in this replay (kind=%s, item=%s)' % (rep.get('kind'), rep.get('item')))
         return 2
     sig = rep.get('signature', '')
+    if ':derived-frame:' in sig and isinstance(inp, dict):
+        lon, lat = [inp.get('lon', 10.0)], [inp.get('lat', 5.0)]
+        own = inp.get('direction') in ('m2r', 'own')
+        out = C.run_impl('c18_impl.py', [{'op': 'derived', 'base_stripe': inp['base_stripe'], 'stripe': inp['stripe'],
+                                         'routes': ['direct', inp['route']], 'lon': [10.0] if own else lon, 'lat': [5.0] if own else lat,
+                                         'mu': lon if own else [95.0], 'nu': lat if own else [0.0]}])
+        for route, res in out['results'][0]['routes'].items():
+            print(route, '->', res)
+        print('documented inclination of stripe %d: %s deg' % (inp['stripe'], incl_doc(inp['stripe'])))
+        return 0
+    if ':gcirc:' in sig and rep.get('calling_convention') and isinstance(inp, list):
+        import subprocess
+        code = ('import sys, json, numpy as np\nsys.path.insert(0, %r)\nimport c18_impl as m\n'
+                'print(json.dumps(m.scalar_conventions(%d, [%r], [%r])))'
+                % (os.path.join(C.VERIF, 'harness', 'impl'), rep['units'], inp, rep['calling_convention']))
+        pr = subprocess.run([C.PY, '-c', code], env=C.impl_env(), stdout=subprocess.PIPE, stderr=subprocess.DEVNULL, text=True, timeout=300)
+        print('gcirc%r units=%d as %s ->' % (tuple(inp), rep['units'], rep['calling_convention']), pr.stdout.strip())
+        print('reference (60 digits):', hp_gcirc(rep['units'], *inp))
+        print('before:', rep.get('gcirc'))
+        return 0
     if ':gcirc:' in sig and 'units' in rep and isinstance(inp, list):
         out = C.run_impl('c18_impl.py', [{'op': 'gcirc', 'units': rep['units'], 'mode': 'scalar', 'pts': [inp]}])
         r = out['results'][0]
